@@ -160,9 +160,6 @@ func (c *simCtx) Done() <-chan struct{} {
 		k = 'L'
 	}
 	c.tick(k)
-	if os.Getenv("ZZ_DEBUG_POLLS") != "" {
-		fmt.Fprintf(os.Stderr, "poll #%d tick=%d kind=%c fired=%v fireAt=%d maxEnd=%d\n", c.npolls, c.nticks-1, k, c.fired, c.fireAt, c.rec.maxEnd)
-	}
 	if c.std != nil {
 		return c.std.Done()
 	}
